@@ -146,6 +146,30 @@ def main():
         D = numpy.array(ag.get_TransitionDipoleMoment()._data)
         return ag, H, D
 
+    def build_in_one_block(Ecm, Jcm, dip, units, mult):
+        """parameters given and system built inside ONE units block, after
+        another aggregate was specified and built in the same block"""
+        N = len(Ecm)
+        with qr.energy_units(units):
+            other = qr.Aggregate([qr.Molecule([0.0, R.from_internal(
+                11000.0 * R.CM2INT, units)])])
+            other.build()
+            mols = []
+            for k in range(N):
+                m = qr.Molecule([0.0, R.from_internal(Ecm[k] * R.CM2INT,
+                                                      units)])
+                m.set_dipole(0, 1, list(dip[k]))
+                mols.append(m)
+            ag = qr.Aggregate(mols)
+            for a in range(N):
+                for b in range(a + 1, N):
+                    ag.set_resonance_coupling(a, b, R.from_internal(
+                        Jcm[a, b] * R.CM2INT, units))
+            ag.build(mult=mult)
+        H = numpy.array(ag.get_Hamiltonian()._data)
+        D = numpy.array(ag.get_TransitionDipoleMoment()._data)
+        return ag, H, D
+
     def observables(ag, H, D):
         ev, S = numpy.linalg.eigh(H)
         # dipole strengths of the transitions from the ground state
@@ -188,6 +212,19 @@ def main():
                     ck.violation("relabelling-invariant", "perm",
                                  dict(rp, perm=list(perm), spectrum_err=e,
                                       dipole_err=e2), rp)
+        for ui in UN:
+            with ck.guarded("units-independent", "one-block", rp, rp):
+                ag1, H1, D1 = build_in_one_block(Ecm, Jcm, dip, ui, mult)
+                e = float(numpy.abs(H1 - H0).max()) / float(
+                    numpy.abs(H0).max())
+                ck.case("units-independent", (s, ui, "one-block"),
+                        nontrivial=ui != "int",
+                        sample=dict(rp, units=ui, workflow="one block, "
+                                    "second aggregate", err=e))
+                if e > 1e-12 or not numpy.array_equal(D1, D0):
+                    ck.violation("units-independent",
+                                 "one-block-second-aggregate:%s" % ui,
+                                 dict(rp, units=ui, err=e), rp)
         for ui in UN:
             for ub in ("int", "1/cm", "eV"):
                 with ck.guarded("units-independent", "build", rp, rp):
